@@ -316,6 +316,36 @@ theorem unserialize_error_iff (tr : Tree) (s : Bytes) :
   unfold unserializePublic
   cases h : (parseChunks C.sigLen s).2 <;> simp [h]
 
+/-! ### several trees of different keys in one process: what a token went through elsewhere does not matter -/
+
+/-- Isolation: after any interleaved history of offers to any number of views (the same tokens may be shown to
+    several views, in any order, any number of times), the state of view `i` is the state it would have reached
+    had it alone been offered its own sub-history.  Nothing a token experienced at another tree — being verified,
+    stored, kept waiting, refused — carries over. -/
+theorem view_isolated (K : Keyed) (w : List View) (evs : List (Nat × Token)) (i : Nat) (v : View)
+    (h : w[i]? = some v) :
+    (runWorld K w evs)[i]? =
+      some { v with tree := gatherAll (K.at v.key) (v.genesis K) v.cap v.tree (offeredTo i evs) } :=
+  runWorld_get K evs w i v h
+
+/-- Hence soundness per key: starting from fresh views, every element of view `i` is an offered token that is
+    signed by THAT view's key and connected to ITS genesis, whatever the other views hold. -/
+theorem view_sound (K : Keyed) (w : List View) (evs : List (Nat × Token)) (i : Nat) (key : Bytes) (cap : Nat)
+    (h : w[i]? = some (View.fresh key cap)) :
+    ∃ v', (runWorld K w evs)[i]? = some v' ∧ v'.key = key ∧
+      ∀ e ∈ v'.tree.els, InTree (K.at key) (K.hash key) (offeredTo i evs) e := by
+  refine ⟨_, view_isolated K w evs i _ h, rfl, ?_⟩
+  exact gather_sound (C := K.at key) (g := K.hash key) (cap := cap) (offeredTo i evs)
+
+/-- A foreign token — one whose signature does not verify under the key of view `i` — is never contained in
+    view `i`, even if it verifies under the key of another view `j` that was offered it first (or holds it). -/
+theorem foreign_never_contained (K : Keyed) (w : List View) (evs : List (Nat × Token)) (i : Nat) (key : Bytes)
+    (cap : Nat) (h : w[i]? = some (View.fresh key cap)) (t : Token)
+    (hv : K.vfyK key t.plain t.sig = false) :
+    ∃ v', (runWorld K w evs)[i]? = some v' ∧ ¬ v'.tree.holds t := by
+  refine ⟨_, view_isolated K w evs i _ h, ?_⟩
+  exact forged_never_contained (C := K.at key) (g := K.hash key) (cap := cap) (offeredTo i evs) t hv
+
 /-! ### the constants the source has today (regenerated on every run by tools/gen_c16.py) -/
 
 /-- the chunk size used by unserialize_public equals the width of the two hashes Token.unserialize reads -/
@@ -373,6 +403,12 @@ example : gatherAll toy [0] 100 Tree.empty hist = ⟨[tA, tB, tC], [tD]⟩ := by
 example : Fits toy [0] 1 Tree.empty [tB, tA, tC] := by
   simp [Fits, gatherKind, storeLen, gather, drain, Tree.empty, toy, tA, tB, tC, Token.valid, Token.id,
     Token.signed, Token.plain, hasId, uncAdd, uncStore, kidsOf, othersOf, Token.same]
+/-- two keys: a signature is the key byte; `tX` is signed by key [7] but hangs off the genesis of key [5] -/
+def toyK : Keyed := ⟨fun x => [x.foldl (· + ·) 0], fun k _ s => s == k, fun _ => 1⟩
+def tX : Token := ⟨[5], [60], [7], none⟩
+example : [View.fresh [7] 100, View.fresh [5] 100][1]? = some (View.fresh [5] 100) := rfl
+example : toyK.vfyK [7] tX.plain tX.sig = true ∧ toyK.vfyK [5] tX.plain tX.sig = false := by decide
+example : offeredTo 1 [(0, tX), (1, tX)] = [tX] := by decide
 example : verify toy [0] ⟨[tA, tB, tC], []⟩ tC 1000 = true := by decide
 example : rootPath toy [0] ⟨[tA, tB, tC], []⟩ tC 2 = [tC, tA] := by decide
 example : verify toy [0] ⟨[tA, tB, tC], []⟩ tC 1 = false := by decide
